@@ -597,7 +597,7 @@ impl<'a, 'p> Dec<'a, 'p>
             }
             OPK_REVOKE => Op::Revoke(self.below(6) as u8),
             OPK_AUTODESPAWN => Op::AutoDespawn(self.entity()),
-            OPK_RUNMANY => { let s = self.sysref(own); Op::RunMany(s, self.below(4) as u8) }
+            OPK_RUNMANY => { let s = self.sysref(own); Op::RunMany(s, self.below(5) as u8) }
             OPK_SYSEV_ENT => { let e = self.entity(); Op::SysEventToEntity(e, self.evty()) }
             _ => Op::Probe(self.chance(80)),
         }
